@@ -183,7 +183,7 @@ WorkerStep(e) ==
        [] e.ev = "Call" ->
             /\ errs' = errs \cup e0 \cup same \cup CallErrs(e)
             /\ UNCHANGED <<held, nput, nback, mvis, tow, disp>>
-       [] e.ev \in {"Poll", "Spawn", "Fin", "Deliver", "WatcherDied"} ->
+       [] e.ev \in {"Poll", "Spawn", "Fin", "QPut", "Deliver", "WatcherDied"} ->
             /\ errs' = errs \cup e0 \cup same
             /\ UNCHANGED <<held, nput, nback, mvis, tow, disp>>
        [] e.ev = "End" ->
